@@ -89,4 +89,30 @@ theorem pCoord_stops : StopsAtNul OplFmt.pCoord := by
   | error e => rfl
   | ok r => rfl
 
+/-! ### the driver's linear-time line splitter is the specification's -/
+
+theorem segsFast_eq : ∀ (bs cur : Bytes) (acc : List Bytes),
+    segsFast bs cur acc = (acc.reverse ++ (Chunks.segs bs cur.reverse).1, (Chunks.segs bs cur.reverse).2)
+  | [], cur, acc => by simp [segsFast, Chunks.segs]
+  | b :: bs, cur, acc => by
+    unfold segsFast Chunks.segs
+    by_cases hb : Chunks.isBreak b = true
+    · rw [if_pos hb, if_pos hb, segsFast_eq bs [] (cur.reverse :: acc)]
+      simp
+    · rw [if_neg hb, if_neg hb, segsFast_eq bs (b :: cur) acc]
+      simp
+
+theorem specLinesFast_eq (bs : Bytes) : specLinesFast bs = Chunks.specLines bs := by
+  unfold specLinesFast Chunks.specLines
+  rw [segsFast_eq]
+  simp
+
+theorem cstrFast_eq : ∀ (bs acc : Bytes), cstrFast bs acc = acc.reverse ++ Chunks.cstr bs
+  | [], acc => by simp [cstrFast, Chunks.cstr]
+  | b :: bs, acc => by
+    unfold cstrFast Chunks.cstr
+    by_cases hb : (b == 0) = true
+    · rw [if_pos hb, if_pos hb]; simp
+    · rw [if_neg hb, if_neg hb, cstrFast_eq bs (b :: acc)]; simp
+
 end Osmium.HostileText
